@@ -2,10 +2,11 @@
 PROPS = {
     "C13A": dict(
         mc=[dict(tla="OracleFee_MC.tla", cfg="OracleFee_MC.cfg", tier="quick", timeout=600),
+            dict(tla="OracleFee_MC.tla", cfg="OracleFee_MC_self.cfg", tier="quick", timeout=600),
             dict(tla="OracleFee_MC.tla", cfg="OracleFee_MC_deep.cfg", tier="thorough", timeout=2400)],
         drive=dict(family="oraclefee", nrand=dict(quick=400, thorough=8000)),
         trace=dict(tla="OracleFee_Trace.tla", cfg="OracleFee_Trace_C13A.cfg", steps_per_line=1),
-        rule="random scripts: payer balances 0..30 per denom, 1-4 raw requests over 4 data sources (fees (1,0) (2,1) (0,0) "
+        rule="random scripts: payer balances 0..30 per denom (one payer in four is the treasury of two of the data sources), 1-4 raw requests over 4 data sources (fees (1,0) (2,1) (0,0) "
              "(0,2), repeated and unknown ids), ask 1-3, fee limits at cost-1/cost/cost+1 per denom; non-trivial = at "
              "least one rejected request; distinct = SHA-256 of the script",
         assumptions=["IBC request path (relay.go) not driven: the fee payer there is the relayer/escrow account, same CollectFee code",
